@@ -184,6 +184,13 @@ Theorem C12_tables_consistent :
 Proof. exact tables_consistent. Qed.
 Print Assumptions C12_tables_consistent.
 
+(* the condition under which each constructor stores each argument is the one of the hand-kept reference CtorGuardSpec.v
+   (bound: ctors; pairs unknown to the reference are not judged): an `is not None` that silently becomes a truthiness test
+   -- the falsy members of the type (0, "", False, timedelta(0)) no longer stored -- fails here with (class, argument) *)
+Theorem C12_ctor_guards_match_reference : forall e, In e ctors -> guard_matches_reference e = true.
+Proof. exact guards_match_reference. Qed.
+Print Assumptions C12_ctor_guards_match_reference.
+
 (* MAIN: for every class of the table (c, es), every argument e recorded as stored through a generic property
    (attribute n, family fam) under guard g with conversion cv: whatever the other arguments are (raw), whatever the
    Python conversion functions do (pyconv), whatever attributes the element had (a) -- if the caller's value passes the
